@@ -874,7 +874,13 @@ pub extern "C" fn tsrun_call(
             .collect()
     };
 
-    match ctx.interp.call_function(func_val, this_val, &args_vec) {
+    // Native callbacks reached from this call find the context through the interpreter,
+    // as they do during tsrun_step/tsrun_run (which may also be the caller of this call).
+    let prev_ffi_context = ctx.interp.ffi_context;
+    ctx.interp.ffi_context = ctx as *mut TsRunContext as *mut core::ffi::c_void;
+    let call_result = ctx.interp.call_function(func_val, this_val, &args_vec);
+    ctx.interp.ffi_context = prev_ffi_context;
+    match call_result {
         Ok(mut guarded) => {
             // The callee may hand back an existing object without a guard (for example one
             // of its arguments): the returned handle has to keep it alive on its own.
@@ -951,7 +957,13 @@ pub extern "C" fn tsrun_call_method(
     };
 
     let this_val = JsValue::Object(obj_ref.cheap_clone());
-    match ctx.interp.call_function(method_val, this_val, &args_vec) {
+    // Native callbacks reached from this call find the context through the interpreter,
+    // as they do during tsrun_step/tsrun_run (which may also be the caller of this call).
+    let prev_ffi_context = ctx.interp.ffi_context;
+    ctx.interp.ffi_context = ctx as *mut TsRunContext as *mut core::ffi::c_void;
+    let call_result = ctx.interp.call_function(method_val, this_val, &args_vec);
+    ctx.interp.ffi_context = prev_ffi_context;
+    match call_result {
         Ok(mut guarded) => {
             // The callee may hand back an existing object without a guard (for example one
             // of its arguments): the returned handle has to keep it alive on its own.
